@@ -89,6 +89,13 @@ class GenericCallAdapter(Adapter):
     def items(cls, value, node):
         new_args, new_kwargs = cls.arguments(value)
 
+        if node is not None and (
+            any(isinstance(arg, ast.Starred) for arg in node.args)
+            or any(kw.arg is None for kw in node.keywords)
+        ):
+            # star-expressions: the arguments can not be mapped to nodes
+            node = None
+
         if node is not None:
             assert isinstance(node, ast.Call)
             assert all(kw.arg for kw in node.keywords)
